@@ -30,7 +30,8 @@ RULE = ("exhaustive part: every population shape (identity-duplicates included) 
         "population >= 2 and target >= 1; distinct = distinct protocol lines")
 ASSUMPTIONS = [
     "fitness values are integers (an arbitrary linear order); inf fitness is not modelled; a lexicase case on which every candidate is NaN is "
-    "modelled as a skipped case (no candidate passes it; the candidates stay as they were)",
+    "modelled as a skipped case (no candidate passes it; the candidates stay as they were); that an uninformative case can be dropped from the case "
+    "order without changing the survivors is the theorem C17_lexicase_uninformative_case",
     "pools that are only partly evaluated, under the sequential and the parallel evaluator, are judged by the fitness the problem's function "
     "assigns to each program (fresh sequential evaluation), not by what is stored on the individuals",
     "epsilon-lexicase: numpy's median / MAD on integer-valued floats is exact (multiples of 1/4); modelled in integers scaled by 4",
